@@ -349,3 +349,65 @@ def rule_G13(ck):
                 ck.violation(loop, f"'while {guard}' ({res['template']}): {pr}. Assembling a program that reaches this state never ends", construct=f"while loop in {public_qual(q).split('::')[1]}: {res['template']}")
     if n < 15:
         ck.unknown(f"only {n} while loops found (17 confirmed by hand)")
+
+
+# ---------------------------------------------------------------------------------------------------------------
+# G14 - recursion through inclusion is bounded
+def rule_G14(ck):
+    """compile_block -> compile_insn -> directive handler -> compile_include -> compile_file -> compile_block is the one
+    recursion of the compiler whose depth is chosen by the program's FILES rather than by the nesting of one finite text
+    ('.repeat { }' recurses on a sub-tree). The language has no conditionals, so a file that includes itself recurses
+    for ever unless the handler bounds the depth. Every call of compile_include from a directive handler must be
+    (a) dominated by a comparison of a depth counter with a constant whose failing side reports and returns, (b) preceded by
+    the counter's increment, and (c) inside a try whose finally decrements it."""
+    repo = ck.repo
+    sites = []
+    for q, fn in repo.all_functions():
+        if isinstance(fn, ast.Lambda) or q.split("::")[0] not in ("metacommands", "metacommand_impl", "builtins"):
+            continue
+        for n in walk_local(fn):
+            if isinstance(n, ast.Call) and flow.call_name(n) == "compile_include":
+                sites.append((q, fn, n))
+    if not sites:
+        ck.unknown("no directive handler calls compile_include any more (anchor of the rule)")
+    for q, fn, call in sites:
+        # the depth counter is whatever the handler increments by one and decrements by one
+        inc = {norm_text(n.target) for n in walk_local(fn) if isinstance(n, ast.AugAssign) and isinstance(n.op, ast.Add) and _const(n.value) == 1}
+        decr = {norm_text(n.target) for n in walk_local(fn) if isinstance(n, ast.AugAssign) and isinstance(n.op, ast.Sub) and _const(n.value) == 1}
+        counters = inc & decr
+
+        def test_facts(test):
+            neg = isinstance(test, ast.UnaryOp) and isinstance(test.op, ast.Not)
+            t = test.operand if neg else test
+            if isinstance(t, ast.Compare) and len(t.ops) == 1 and isinstance(t.ops[0], (ast.Gt, ast.GtE, ast.Lt, ast.LtE)):
+                l, r = t.left, t.comparators[0]
+                lt, rt = norm_text(l), norm_text(r)
+                side = "l" if lt in counters and not any(c in rt for c in counters) else ("r" if rt in counters and not any(c in lt for c in counters) else None)
+                if side:
+                    too_deep_when_true = isinstance(t.ops[0], (ast.Gt, ast.GtE)) == (side == "l")
+                    if neg:
+                        too_deep_when_true = not too_deep_when_true
+                    return (set(), {"bounded"}) if too_deep_when_true else ({"bounded"}, set())
+            return set(), set()
+
+        def gen(n):
+            if isinstance(n, ast.AugAssign) and isinstance(n.op, ast.Add) and _const(n.value) == 1 and norm_text(n.target) in counters:
+                return {"incremented"}
+            return set()
+        facts = flow.facts_before(fn, call, gen, None, test_facts)
+        facts = set() if facts in (None, flow.TOP) else set(facts)
+        # (c) the try/finally around the call
+        p, dec = call, False
+        while p is not None and p is not fn:
+            par = getattr(p, "_parent", None)
+            if isinstance(par, ast.Try) and p in par.body:
+                dec = any(isinstance(m, ast.AugAssign) and isinstance(m.op, ast.Sub) and _const(m.value) == 1 and norm_text(m.target) in counters for s in par.finalbody for m in ast.walk(s))
+                if dec:
+                    break
+            p = par
+        ck.instance(("include-recursion", q), {"handler": q, "depth counter": sorted(counters), "guarded": "bounded" in facts, "incremented before": "incremented" in facts, "decremented in finally": dec}, fn=q)
+        missing = [w for w, ok in (("a depth guard (counter compared with a constant, report and return on the deep side)", "bounded" in facts),
+                                   ("the counter's increment before the call", "incremented" in facts), ("its decrement in a finally", dec)) if not ok]
+        if missing:
+            ck.violation(call, f"{q.split('::')[1]} compiles the included file recursively without {'; '.join(missing)}: a file that includes itself (or two files that include each other) recurses until "
+                               "Python's recursion limit: RecursionError, 'unexpected internal compiler error' instead of a diagnostic", construct=f"unbounded inclusion recursion in {q.split('::')[1]}")
